@@ -124,6 +124,18 @@ def run_probe(p):
             if snap_instr(i) != before:
                 mut = "instruction object changed by lifting"
             return r, mut
+        if k == "relift":
+            # one instruction object lifted twice with different explicit arguments: the second result must be what a fresh decode gives
+            i = x86mnemo.dis(bytes.fromhex(p["b"]))
+            if i is None:
+                return None, mut
+            eip = lambda o: ExprInt(uint32(0x1000 + o.l))
+            emul_helper.get_instr_expr(i, eip(i), [], set(p["first"]))
+            r = [ser_expr(e) for e in emul_helper.get_instr_expr(i, eip(i), [], set(p["second"]))]
+            j = x86mnemo.dis(bytes.fromhex(p["b"]))
+            if r != [ser_expr(e) for e in emul_helper.get_instr_expr(j, eip(j), [], set(p["second"]))]:
+                mut = "lifting an instruction object a second time (other segm_to_do) differs from lifting a fresh decode of the same bytes"
+            return r, mut
         if k == "liftsimp":
             i = x86mnemo.dis(bytes.fromhex(p["b"]))
             if i is None:
